@@ -332,6 +332,10 @@ def check_solvers(case, rec):
     mode, dt = spec["mode"], float(spec["dt"])
     fast = cr.build_behaviour(spec, Ne, solver="auto")
     slow = cr.build_behaviour(spec, Ne, solver="newton")
+    fastT, slowT = cr.build_behaviour(spec, Ne, solver="auto"), cr.build_behaviour(spec, Ne, solver="newton")
+    for b in (fastT, slowT):
+        b._tol = 1e-13
+        b._planeStress_tol = 1e-13
     ref = cr.Ref(spec, fast.C, fast.layout.slots)
     sc = Scales(spec, ref)
     sg = cr.sig_of(spec, "auto")
@@ -346,7 +350,9 @@ def check_solvers(case, rec):
         sF, CF, zF, okF = integrate(fast, eps, z, dt)
         sS, CS, zS, okS = integrate(slow, eps, z, dt)
         okF, okS = np.asarray(okF, bool), np.asarray(okS, bool)
-        m = okF & okS
+        m = okF & okS            # a False flag of either solver = step outside the quantifier, nothing is compared
+        if (okF != okS).any():
+            rec.label("solvers:flag_false:" + ("spectral" if (~okF & okS).any() else "newton"))
         # at neutral loading (f_trial = 0 up to round-off) the two solvers may legitimately pick either side
         # of the active-set switch: same stress and state, one-sided tangents -> tangents are compared only
         # away from that tie
@@ -356,10 +362,18 @@ def check_solvers(case, rec):
         if m.any():
             zFa, zSa = np.asarray(zF, float), np.asarray(zS, float)
             # both solvers stop on residuals: 1e-10 (dimensionless) on strain rows, 1e-10 max(sy,1) on f
+            dC, mC = np.asarray(CF) - np.asarray(CS), m & same_set
+            if mC.any() and np.abs(dC[mC]).max() > 1e-2 * TOL_FD * sc.Cmax:
+                # the tangent of a rate law / sharp hardening at a tiny dGamma amplifies the 1e-10 stopping noise of
+                # the multiplier (observed 4.5e-6): a tangent disagreement must persist when both solvers iterate to 1e-13
+                outT = [integrate(b, eps, z, dt) for b in (fastT, slowT)]
+                mC = mC & np.asarray(outT[0][3], bool) & np.asarray(outT[1][3], bool)
+                dC = np.asarray(outT[0][1]) - np.asarray(outT[1][1])
+                rec.label("solvers:tangent_rechecked_tight")
             for what, err, scale, tol in (
                 ("stresses", (np.asarray(sF) - np.asarray(sS))[m], sc.Cmax * max(1.0, sc.eps) + sc.f, TOL_SOLVERS),
                 ("states", (zFa - zSa)[m], max(1.0, sc.eps), TOL_SOLVERS),
-                ("tangents", (np.asarray(CF) - np.asarray(CS))[m & same_set], sc.Cmax, TOL_FD),
+                ("tangents", dC[mC], sc.Cmax, TOL_FD),
             ):
                 if err.size and rec.is_known("solvers_agree", sg) is None:
                     rec.note_max("ratio:solvers_" + what, float(np.abs(err).max()) / scale)
